@@ -203,6 +203,11 @@ package types
 
 // Bounded stand-in (the unbounded proof of the two string loops against each other is not attempted): the real
 // Delta and ApplyDelta are executed on all 256 x 256 pairs of permission sets.
+// C20: the database form of an id (DecodeUid / EncodeInt64, a block cipher under the configured key) is a bijection on
+// all 64-bit values, sign bit included - not only on the ids this server has generated. The cipher is outside the
+// engine's reach; a bounded stand-in runs the real functions under a fixed key on 65,536 ids spread over the top byte
+// (which holds the sign bit) and a byte pattern below it, in both directions.
+//@ bounded [C20] uid_database_form_roundtrip: hi int in 0..255, lo int in 0..255 :: func() bool { var ug UidGenerator; if ug.Init(1, []byte("0123456789abcdef")) != nil { return false }; w := uint64(hi)<<56 | uint64(lo)*0x0001010101010101; return ug.EncodeInt64(ug.DecodeUid(Uid(w))) == Uid(w) && ug.DecodeUid(ug.EncodeInt64(int64(w))) == int64(w) }()
 //@ bounded [C05] delta_roundtrip: o AccessMode in 0..255, n AccessMode in 0..255 :: func() bool { m := o; if err := m.ApplyDelta(o.Delta(n)); err != nil { return false }; return m == n }()
 //@ bounded [C05] mutation_roundtrip: o AccessMode in 0..255, n AccessMode in 0..255 :: func() bool { m := o; d := o.Delta(n); if o == 0 || d == "" { d = n.String() }; if err := m.ApplyMutation(d); err != nil { return false }; return m == n }()
 
